@@ -1357,6 +1357,26 @@ impl World {
                 };
                 Obs::Deliver { main, twin: twin_obs, control: control_obs }
             }
+            Op::ForeignIssue { proto, key, nonce_hex, payload_hex, footer, assertion, out } => {
+                let km = match self.keys.get(*key) {
+                    Some(k) => k.clone(),
+                    None => return Obs::Skipped("no such key".into()),
+                };
+                let (nonce, payload) = match (hex::decode(nonce_hex), hex::decode(payload_hex)) {
+                    (Ok(n), Ok(p)) if n.len() == 32 => (n, p),
+                    _ => return Obs::Skipped("bad hex".into()),
+                };
+                let mut n32 = [0u8; 32];
+                n32.copy_from_slice(&nonce);
+                match crate::foreign::issue(*proto, &km, &n32, &payload, footer.as_deref(), assertion.as_deref()) {
+                    Some(t) => {
+                        let s = self.arena.str(&t);
+                        self.msgs.insert(*out, s);
+                        Obs::ForeignIssue { issued: true }
+                    }
+                    None => Obs::ForeignIssue { issued: false },
+                }
+            }
             Op::DrawKeys { n } => {
                 env::set_entropy(EntropyMode::Observe, 0, &[]);
                 let n = *n as usize;
